@@ -510,8 +510,10 @@ impl RunConfig {
             let listeners = all_listeners.into_iter().next().unwrap();
             for (listener, descriptor) in listeners {
                 let shutdown_manager = Arc::clone(&shutdown_manager);
+                // bind now, so we are listening before a previous instance is told to shut down
+                let listener = listener();
                 let future = async move {
-                    accept(listener(), descriptor, &shutdown_manager, true)
+                    accept(listener, descriptor, &shutdown_manager, true)
                         .await
                         .expect("Failed to accept message!");
                 };
